@@ -33,7 +33,7 @@ RECIPE_BAD = '''def recipe(field_indexes, box_array):
 '''
 
 PATH_FORMS = [("parent", "rel"), ("parent", "dot"), ("parent", "slash"), ("parent", "abs"), ("parent", "abs_slash"),
-              ("else", "rel"), ("else", "rel_slash"), ("else", "abs")]
+              ("else", "rel"), ("else", "rel_slash"), ("else", "abs"), ("else", "symlink")]
 
 
 def bounds(tier):
@@ -236,7 +236,7 @@ def cases(tier, seed):
         if "explicit" not in outmodes or name == "chef_builtin":
             continue
         for oi, opt in enumerate(opts):
-            for pf in (("parent", "rel"), ("parent", "slash"), ("else", "rel"), ("else", "abs")):
+            for pf in (("parent", "rel"), ("parent", "slash"), ("else", "rel"), ("else", "abs"), ("else", "symlink")):
                 out.append({"tool": name, "outmode": "parent", "opt": oi, "pathform": list(pf), "faults": False, "broken": False,
                             "seed": seed, "w": 1})
     # requested output = the input plotfile itself: the only way to satisfy the statement is to refuse; a run that ends
@@ -254,8 +254,9 @@ def cases(tier, seed):
         if "default" not in outmodes or name == "chef_builtin":
             continue
         for pf in (("parent", "rel"), ("else", "abs")):
-            out.append({"tool": name, "outmode": "default", "opt": 0, "pathform": list(pf), "faults": False, "broken": False,
-                        "seed": seed, "names": 1, "w": 1})
+            for nm_ in (1, 2):
+                out.append({"tool": name, "outmode": "default", "opt": 0, "pathform": list(pf), "faults": False, "broken": False,
+                            "seed": seed, "names": nm_, "w": 1})
     # histories: the same tool twice into the SAME output path with different options (an output that already exists,
     # written by an earlier run): every ordered pair of option variants
     for name, (fn, kind, two, outmodes, opts, broken) in sorted(TOOLS.items()):
@@ -270,6 +271,12 @@ def cases(tier, seed):
 
 
 def path_form(abs_path, cwd, form):
+    if form == "symlink":
+        # the input named through a symbolic link that lives in the working directory (outside the directory of the input)
+        link = os.path.join(cwd, "lnk_" + os.path.basename(abs_path))
+        if not os.path.islink(link):
+            os.symlink(abs_path, link)
+        return os.path.relpath(link, cwd)
     rel = os.path.relpath(abs_path, cwd)
     return {"rel": rel, "dot": "./" + rel, "slash": rel + "/", "abs": abs_path, "abs_slash": abs_path + "/",
             "rel_slash": rel + "/"}[form]
@@ -278,7 +285,7 @@ def path_form(abs_path, cwd, form):
 class Env(object):
     """fresh input trees for one execution"""
 
-    NAMES = [("plt00010", "plt00020", "chk00005"), ("plt_t0.25", "plt_t0.50", "chk00005.old")]
+    NAMES = [("plt00010", "plt00020", "chk00005"), ("plt_t0.25", "plt_t0.50", "chk00005.old"), ("run_plt00010", "x.plt", "flame_chk00012")]
 
     def __init__(self, workdir, kind, seed, tag, names=0):
         n1, n2, nchk = self.NAMES[names]
@@ -356,7 +363,7 @@ def execute(case, env, fail_at=None, breakage=None, opt_index=None):
     P = path_form(env.p1, cwd, form)
     P2 = path_form(env.p2, cwd, form) if two else None
     if case["outmode"] in ("explicit", "twice"):
-        out = "out_x" if form in ("rel", "dot", "slash", "rel_slash") else os.path.join(env.root, "outabs", "out_x")
+        out = "out_x" if form in ("rel", "dot", "slash", "rel_slash", "symlink") else os.path.join(env.root, "outabs", "out_x")
         if os.path.isabs(out):
             os.makedirs(os.path.dirname(out), exist_ok=True)
         out_abs = os.path.realpath(os.path.join(cwd, out))
@@ -364,7 +371,7 @@ def execute(case, env, fail_at=None, breakage=None, opt_index=None):
         out = P
         out_abs = os.path.realpath(env.p1)
     elif case["outmode"] == "parent":
-        out = path_form(env.indir, cwd, form)
+        out = path_form(env.indir, cwd, form if form != "symlink" else "rel")
         out_abs = os.path.realpath(env.indir)
     else:
         out = None
